@@ -162,6 +162,8 @@ STUBS = {
     'ctor:std::basic_string_view<char>/2': {'expr': '((struct vs_sv){($0), ($1)})'}, 'ctor:std::string_view/2': {'expr': '((struct vs_sv){($0), ($1)})'},
     'ctor:std::string/2': {'expr': '((struct vs_sv){($0), ($1)})'},
     CM + '::count': {'expr': 'vs_cmap_count(&L, path, $this, $0)'}, CM + '::at': 'vs_cmap_at_fn', CM + '::empty': {'expr': '((($this))->n == 0)'},
+    # find(segment): the entry of this segment or end()
+    CM + '::find': {'expr': 'vs_cmap_find(&L, path, $this, $0)'}, CM2 + '::find': {'expr': 'vs_cmap_find(&L, path, $this, $0)'},
     CM + '::begin': {'expr': '((struct vs_cit){(($this))->kind, 0})'}, CM + '::end': {'expr': '((struct vs_cit){(($this))->kind, (($this))->n})'},
     'operator!=|%s,%s' % (CIB, CIB): {'expr': '(($0).i != ($1).i)'}, 'operator==|%s,%s' % (CIB, CIB): {'expr': '(($0).i == ($1).i)'},
     'operator++|' + CCI: {'expr': '(++($0).i)'}, 'operator++|' + CI: {'expr': '(++($0).i)'},
@@ -263,12 +265,18 @@ static inline void vs_descend(struct vs_level *L, const struct vs_sv *path, cons
     else __CPROVER_assert(c == (k == 1 ? &vs_child_fixed : k == 2 ? &vs_child_param : &vs_child_opt) && (k == 1 ? self->fixed_.has_seg : k == 2 ? self->param_.has_seg : self->optional_.has_seg),
                           "C10: the child descended into is the entry of this segment in the map of its kind");
 }
+#define VS_IT_FOUND ((size_t)-2)      /* iterator handed out by find(): the entry of the segment looked up */
+static inline struct vs_cit vs_cmap_find(struct vs_level *L, const struct vs_sv *path, const struct vs_cmap *m, struct vs_sv seg)
+{
+    vs_key_check(L, path, m, seg);
+    return (struct vs_cit){m->kind, m->has_seg ? VS_IT_FOUND : m->n};
+}
 /* the entry an iterator points at: (name of the parameter, its subtree) */
 static inline struct vs_cpair *vs_cmap_entry(struct vs_level *L, struct vs_cit it)
 {
     struct vs_sv key;
     L->slot.first = key; L->cur_key = key; L->cur_idx = it.i;
-    L->slot.second = it.kind == 2 ? &vs_child_param : &vs_child_opt;
+    L->slot.second = it.kind == 1 ? &vs_child_fixed : it.kind == 2 ? &vs_child_param : &vs_child_opt;
     return &L->slot;
 }
 /* one attempt: child `c` is about to be asked about `lower` with the binding stacks as they are now */
